@@ -416,6 +416,9 @@ func (s *Sandbox) Perturb(w *WS, st Step) string {
 	if _, err := os.Lstat(full); err != nil && st.Kind != "perturb-delete-parent" {
 		return ""
 	}
+	if fi, err := os.Lstat(full); err == nil && fi.Mode()&os.ModeSymlink != 0 && st.Kind != "perturb-delete" && st.Kind != "perturb-delete-parent" {
+		return "" // an earlier perturbation left a link to the outside here: the harness itself must not write through it
+	}
 	firstFile := func() string {
 		if !isDir {
 			return full
@@ -476,8 +479,56 @@ func (s *Sandbox) Perturb(w *WS, st Step) string {
 		_ = os.RemoveAll(full)
 		_ = os.WriteFile(full, []byte("a file"), 0o644)
 		return "file-for-dir " + p
+	case "perturb-dir-for-file":
+		if isDir {
+			return ""
+		}
+		_ = os.RemoveAll(full)
+		_ = os.MkdirAll(filepath.Join(full, "sub"), 0o755)
+		_ = os.WriteFile(filepath.Join(full, "sub", "junk"), []byte("junk"), 0o644)
+		return "dir-for-file " + p
+	case "perturb-symlink":
+		// the output is replaced by a link to something outside the workspace, which must survive whatever grog does next
+		outside := filepath.Join(s.Base, "outside")
+		_ = os.MkdirAll(filepath.Join(outside, "victim-dir"), 0o755)
+		_ = os.WriteFile(filepath.Join(outside, "victim.txt"), []byte(VictimContent), 0o644)
+		_ = os.WriteFile(filepath.Join(outside, "victim-dir", "keep"), []byte(VictimContent), 0o644)
+		_ = os.RemoveAll(full)
+		if isDir {
+			_ = os.Symlink(filepath.Join(outside, "victim-dir"), full)
+		} else {
+			_ = os.Symlink(filepath.Join(outside, "victim.txt"), full)
+		}
+		return "symlink-to-outside " + p
 	case "perturb-touch-sources":
 		return ""
 	}
 	return ""
+}
+
+const VictimContent = "not part of the workspace - must survive"
+
+// VictimsIntact reports what happened to the files outside the workspace that perturb-symlink links to ("" = intact).
+func (s *Sandbox) VictimsIntact() string {
+	outside := filepath.Join(s.Base, "outside")
+	if _, err := os.Stat(outside); err != nil {
+		return ""
+	}
+	for _, f := range []string{"victim.txt", "victim-dir/keep"} {
+		b, err := os.ReadFile(filepath.Join(outside, f))
+		if err != nil || string(b) != VictimContent {
+			return fmt.Sprintf("%s (outside the workspace) was modified or removed: now %q, err %v", f, clipStr(string(b)), err)
+		}
+	}
+	if entries, _ := os.ReadDir(filepath.Join(outside, "victim-dir")); len(entries) != 1 {
+		return fmt.Sprintf("the directory outside the workspace now has %d entries", len(entries))
+	}
+	return ""
+}
+
+func clipStr(s string) string {
+	if len(s) > 80 {
+		return s[:80] + "…"
+	}
+	return s
 }
